@@ -4,12 +4,27 @@
 use vcore::{Value, json};
 
 /// module trees: (module name, parent index); index 0 is the root `pkg`
-pub const SHAPES: [&[(&str, usize)]; 4] = [
+pub const SHAPES: [&[(&str, usize)]; 10] = [
     &[("pkg", 0)],
     &[("pkg", 0), ("a", 0)],
     &[("pkg", 0), ("a", 0), ("z", 0)],
     &[("pkg", 0), ("a", 0), ("z", 1)],
+    // sub-module names that collide with the path machinery (PATHY_SHAPES)
+    // a sub-module called like the root: pkg.pkg
+    &[("pkg", 0), ("pkg", 0)],
+    // pkg.pkg and pkg.pkg.pkg
+    &[("pkg", 0), ("pkg", 0), ("pkg", 1)],
+    // keywords of the language / of the path syntax as module names
+    &[("pkg", 0), ("test", 0), ("super_", 0)],
+    &[("pkg", 0), ("std", 0), ("dep", 0)],
+    // a name that is a prefix of another
+    &[("pkg", 0), ("a", 0), ("ab", 0)],
+    // ... and a suffix; `b` below `a_b`
+    &[("pkg", 0), ("a_b", 0), ("b", 1)],
 ];
+
+/// the first of the module trees whose names collide with the path machinery
+pub const FIRST_PATHY_SHAPE: usize = 4;
 
 /// path of module `m` below `pkg` ("" for the root): what `get_function` wants
 pub fn rel_path(shape: usize, m: usize) -> String {
